@@ -49,6 +49,9 @@ T = [
     ("idx.off16.p", "STY", "1000,U", "ins", None),
     ("idx.off8.r16", "LDX", "100,Y", "ins", None),
     ("idx.off8.lea", "LEAX", "100,Y", "ins", None),
+    ("idx.lbl", "LDA", "{L},X", "ins", None),
+    ("idx.lbl.p", "STY", "{L},U", "ins", None),
+    ("ind.lbl", "LDB", "[{L},Y]", "ins", None),
     ("idx.acc", "LDA", "B,U", "ins", None),
     ("idx.inc1", "LDA", ",X+", "ins", None),
     ("idx.inc2", "LDD", ",X++", "ins", None),
@@ -103,7 +106,7 @@ T = [
 ]
 TAGS = {t[0]: t for t in T}
 CORE = ["inh1", "inh.swi", "imm8", "imm16.p", "dir", "ext", "ext.lbl", "imm.lbl", "idx.off5", "idx.off8n", "idx.off16",
-        "idx.off8.r16", "extind.lbl", "pcr.lbl", "pcr.lbl.ind", "bra", "lbne", "fcb3", "fcc11", "rmb7", "equ8", "equ16",
+        "idx.off8.r16", "idx.lbl", "ind.lbl", "extind.lbl", "pcr.lbl", "pcr.lbl.ind", "bra", "lbne", "fcb3", "fcc11", "rmb7", "equ8", "equ16",
         "org10", "org0E00", "end"]
 
 
